@@ -11,7 +11,7 @@ COQ_TARGETS = ["Properties/C09", "Pins/C09"]
 THEOREMS = [("PdfV.Properties.C09", n) for n in
             ["C09_read_your_writes", "C09_get_coherent", "C09_byte_len_fits", "C09_xref_roundtrip", "C09_prefix",
              "C09_save_layout", "C09_parse_ser", "C09_reload", "C09_reload_stream", "C09_locate_xref", "C09_load_table", "C09_reload_untouched", "C09_failed_save_recovers", "C09_second_save",
-             "C09_wf_preserved"]]
+             "C09_wf_preserved", "C09_create_nested", "C09_create_is_create_with"]]
 ANCHORS = ["file.rs", "xref.rs"]
 if os.environ.get("VP_DEV"):
     COQ_TARGETS, THEOREMS = ["Storage/Run"], []
@@ -283,7 +283,11 @@ def gen_history(rng, base, n_ops, n_saves, fail_mode):
                 h.add(b"S", "S")
             continue
         k = rng.randrange(10)
-        if k <= 1:
+        if k <= 1 and rng.randrange(4) == 0:
+            # create of a value whose conversion creates a child through the updater: two references (parent, child)
+            v = gen_hvalue(rng, refs_pool())
+            h.add(b"N " + cv(v), "N", v); nh += 2; handles.append("c"); handles.append("c")
+        elif k <= 1:
             v = gen_hvalue(rng, refs_pool())
             h.add(b"C " + cv(v), "C", v); nh += 1; handles.append("c")
         elif k <= 4 and (updatable or handles):
@@ -381,8 +385,27 @@ def check_history(base, h, want_tags=None):
                     used.add(r[0]); gens[r[0]] = 0
                     overlay[r[0]] = op[1]
                     handed.append(r)
+                elif kind == "N":
+                    r = parse_ref(take())
+                    if r is None:
+                        return "create (nested) did not return a reference (%s)" % line[:40]
+                    c = parse_ref(take())
+                    if c is None:
+                        return "the child created by the conversion has no reference"
+                    if c[0] == r[0]:
+                        return "create handed out number %d for the parent and for the child its conversion created" % r[0]
+                    for x, who in ((r, "parent"), (c, "child")):
+                        if x[0] in used or x[0] in promised or x[0] == 0:
+                            return "create (nested, %s) handed out number %d which is already in use" % (who, x[0])
+                        if x[1] != 0:
+                            return "create (nested, %s) handed out generation %d" % (who, x[1])
+                        used.add(x[0]); gens[x[0]] = 0
+                    overlay[c[0]] = op[1]
+                    overlay[r[0]] = {"Child": Ref(c[0], c[1])}
+                    handed.append(r); handed.append(c)
                 elif kind == "P":
                     r = parse_ref(take())
+
                     if r is None or r[0] in used or r[0] in promised or r[0] == 0 or r[1] != 0:
                         return "promise handed out %r" % (r,)
                     promised.add(r[0]); gens[r[0]] = 0
@@ -497,6 +520,8 @@ def check_save_to(h):
             expect_fail.append(bool(pending))
         if k in ("C", "U", "Uinfile", "P", "F"):
             nh += 1
+        elif k == "N":
+            nh += 2
 
     def chk(r):
         if r[0] != "OK":
